@@ -5,6 +5,8 @@ A *projection* is what a property's correspondence compares between model and im
 A *predicate* judges an implementation trace on its own (no model involved) and returns a list of
 failure descriptions (empty = holds on this trace)."""
 import copy
+import hashlib
+import random
 import json
 
 
@@ -537,12 +539,29 @@ def wiring_set(o):
     return sorted(json.dumps([e["fn"], e["args"]], sort_keys=True) for e in enters(o))
 
 
+def wiring_list(o, multi=()):
+    """(fn, args) of every function entered during one operation; execution counters of functions registered
+    more than once are masked (which of two nodes of one function runs first may depend on the order)"""
+    def canon(v):
+        if isinstance(v, dict):
+            if "tok" in v and v["tok"][0] in multi:
+                t = list(v["tok"]); t[1] = 0
+                return {"tok": t}
+            return {k: canon(x) for k, x in v.items()}
+        if isinstance(v, list):
+            return [canon(x) for x in v]
+        return v
+    return [json.dumps([e["fn"], canon(e["args"])], sort_keys=True) for e in enters(o)]
+
+
 def twin_c16(prog, impl_run, rnd):
     """permute maximal blocks of accepted registrations; move scope creations earlier; flip
     DeferAcyclicVerification on cycle-free histories.  Scripts are made all-ok (the property speaks
     about verdicts and wiring of successful Invokes)."""
     bad = []
     base = all_ok_script(prog)
+    # the permutations are a function of the program alone, so that a replay file reproduces them
+    rnd = random.Random(int(hashlib.md5(json.dumps(base["ops"], sort_keys=True).encode()).hexdigest()[:12], 16))
     t0 = impl_run(base)
     ops = base["ops"]
     res = ops_of(t0)
@@ -598,10 +617,28 @@ def twin_c16(prog, impl_run, rnd):
 
 
 def compare_variant(what, ops, res, t0, t1, idx):
-    """compare the results of a variant history (new position -> old index in idx) with the base"""
+    """compare the results of a variant history (new position -> old index in idx) with the base.
+
+    Wiring of a successful Invoke = the arguments handed to the invoked function (provenance tokens, deep) and the
+    arguments of every constructor/decorator executed for it.  A *failed* Invoke may legitimately execute a
+    different subset of constructors in the two histories (group members are called in registration order up to
+    the first failure), so a function executed during this Invoke in one history may in the other one have been
+    executed already during an earlier operation — with the same arguments; that is accepted, anything else is a
+    difference."""
     r1 = ops_of(t1)
     if fatal_of(t1) != fatal_of(t0) or len(r1) != len(res):
         return ["%s: process-level outcome differs (%s vs %s)" % (what, fatal_of(t0), fatal_of(t1))]
+    cnt = {}
+    for op, o in zip(ops, res):
+        if op["op"] in ("provide", "decorate") and o["v"] == "ok":
+            cnt[op["fn"]] = cnt.get(op["fn"], 0) + 1
+    multi = {f for f, c in cnt.items() if c > 1}
+    seen_a = {}      # old index -> wiring seen strictly before it in the base history
+    acc = set()
+    for k, o in enumerate(res):
+        seen_a[k] = set(acc)
+        acc |= set(wiring_list(o, multi))
+    acc_b = set()
     for newpos, old in enumerate(idx):
         a, b = res[old], r1[newpos]
         if ops[old]["op"] in ("provide", "decorate"):
@@ -610,8 +647,17 @@ def compare_variant(what, ops, res, t0, t1, idx):
         elif ops[old]["op"] == "invoke":
             if vclass(a["v"]) != vclass(b["v"]):
                 return ["%s: Invoke op %d verdict %s vs %s" % (what, old, json.dumps(a["v"])[:120], json.dumps(b["v"])[:120])]
-            if a["v"] == "ok" and wiring_set(a) != wiring_set(b):
-                return ["%s: Invoke op %d wires different values" % (what, old)]
+            if a["v"] == "ok":
+                wa, wb = wiring_list(a, multi), wiring_list(b, multi)
+                if bool(wa) != bool(wb) or (wa and wa[-1] != wb[-1]):
+                    return ["%s: Invoke op %d hands different values to the invoked function" % (what, old)]
+                for w in wa:
+                    if w not in wb and w not in acc_b:
+                        return ["%s: Invoke op %d wires different values (%s only in the original order)" % (what, old, w[:100])]
+                for w in wb:
+                    if w not in wa and w not in seen_a[old]:
+                        return ["%s: Invoke op %d wires different values (%s only in the changed order)" % (what, old, w[:100])]
+        acc_b |= set(wiring_list(b, multi))
     return []
 
 
